@@ -13,6 +13,45 @@ pub use cache::Cache;
 use search_graph::{DepthFirstNumber, SearchGraph};
 use stack::{Stack, StackDepth};
 
+/// Verification hooks (only compiled with `--cfg chalk_verif`): one event per
+/// step of the fixed-point engine.
+#[cfg(chalk_verif)]
+mod verif {
+    use chalk_ir::verif::emit;
+    use std::fmt::Debug;
+    pub(super) fn goal_value(ev: &str, g: &dyn Debug, v: &dyn Debug) {
+        emit(ev, |f| {
+            f.str("g", &format!("{:?}", g)).str("v", &format!("{:?}", v));
+        });
+    }
+    pub(super) fn graph_hit(g: &dyn Debug, onstack: bool, v: &dyn Debug) {
+        emit("RGraphHit", |f| {
+            f.str("g", &format!("{:?}", g)).bool("onstack", onstack).str("v", &format!("{:?}", v));
+        });
+    }
+    pub(super) fn new_goal(g: &dyn Debug, co: bool) {
+        emit("RNew", |f| {
+            f.str("g", &format!("{:?}", g)).bool("co", co);
+        });
+    }
+    pub(super) fn iter(v: &dyn Debug, next: &str) {
+        emit("RIter", |f| {
+            f.str("v", &format!("{:?}", v)).str("next", next);
+        });
+    }
+    pub(super) fn exit(g: &dyn Debug, v: &dyn Debug, head: bool, cache: bool, interrupted: bool) {
+        let how = match (head, cache, interrupted) {
+            (false, _, _) => "keep",
+            (true, true, true) => "scratch",
+            (true, true, false) => "cache",
+            (true, false, _) => "rollback",
+        };
+        emit("RExit", |f| {
+            f.str("g", &format!("{:?}", g)).str("v", &format!("{:?}", v)).str("how", how);
+        });
+    }
+}
+
 pub(super) struct RecursiveContext<K, V>
 where
     K: Hash + Eq + Debug + Clone,
@@ -157,6 +196,8 @@ where
         if let Some(cache) = &self.cache {
             if let Some(value) = cache.get(goal).or_else(|| self.scratch.get(goal)) {
                 debug!("solve_reduced_goal: cache hit, value={:?}", value);
+                #[cfg(chalk_verif)]
+                verif::goal_value("RCacheHit", goal, &value);
                 return value;
             }
         }
@@ -170,9 +211,13 @@ where
                 // see the corresponding section in the coinduction chapter:
                 // https://rust-lang.github.io/chalk/book/recursive/coinduction.html#mixed-co-inductive-and-inductive-cycles
                 if self.stack.mixed_inductive_coinductive_cycle_from(depth) {
+                    #[cfg(chalk_verif)]
+                    verif::goal_value("RMixed", goal, &"");
                     return solver_stuff.error_value();
                 }
             }
+            #[cfg(chalk_verif)]
+            verif::graph_hit(goal, self.search_graph[dfn].stack_depth.is_some(), &self.search_graph[dfn].solution);
 
             minimums.update_from(self.search_graph[dfn].links);
 
@@ -190,6 +235,8 @@ where
             let initial_solution = solver_stuff.initial_value(goal, coinductive_goal);
             let depth = self.stack.push(coinductive_goal);
             let dfn = self.search_graph.insert(goal, depth, initial_solution);
+            #[cfg(chalk_verif)]
+            verif::new_goal(goal, coinductive_goal);
 
             let subgoal_minimums =
                 self.solve_new_subgoal(goal, depth, dfn, solver_stuff, should_continue);
@@ -206,6 +253,8 @@ where
             // outside of its subtree, then we can promote it to the
             // cache now. This is a sort of hack to alleviate the
             // worst of the repeated work that we do during tabling.
+            #[cfg(chalk_verif)]
+            verif::exit(goal, &result, subgoal_minimums.positive >= dfn, self.cache.is_some(), self.interrupted.load(Ordering::Relaxed));
             if subgoal_minimums.positive >= dfn {
                 if self.cache.is_some() && self.interrupted.load(Ordering::Relaxed) {
                     debug!("solve_reduced_goal: SCC head encountered, solve was interrupted");
@@ -261,6 +310,8 @@ where
             if !self.stack[depth].read_and_reset_cycle_flag() {
                 // None of our subgoals depended on us directly.
                 // We can return.
+                #[cfg(chalk_verif)]
+                verif::iter(&current_answer, "nocycle");
                 self.search_graph[dfn].solution = current_answer;
                 return *minimums;
             }
@@ -268,6 +319,18 @@ where
             let old_answer =
                 std::mem::replace(&mut self.search_graph[dfn].solution, current_answer);
 
+            #[cfg(chalk_verif)]
+            verif::iter(
+                &self.search_graph[dfn].solution,
+                match (
+                    solver_stuff.reached_fixed_point(&old_answer, &self.search_graph[dfn].solution),
+                    old_answer == self.search_graph[dfn].solution,
+                ) {
+                    (false, _) => "again",
+                    (true, false) => "unconverged",
+                    (true, true) => "fixed",
+                },
+            );
             if solver_stuff.reached_fixed_point(&old_answer, &self.search_graph[dfn].solution) {
                 if old_answer != self.search_graph[dfn].solution {
                     // The iteration stops although the answer still changed (it
